@@ -3,7 +3,7 @@
    proofs in Broker/InvProofs*.v and Props/C11_lemmas.v. *)
 From stdpp Require Import gmap list.
 From Aldrin Require Import gen.BrokerConsts Broker.Model Broker.Run Broker.ChannelProofs Broker.Inv
-  Broker.InvProofsStep Broker.InvProofsTerm Props.C11_lemmas.
+  Broker.InvProofsStep Broker.InvProofsTerm Broker.FuelProofs Props.C11_lemmas.
 Local Open Scope N_scope.
 
 Theorem C11_inv_init : Inv init.
@@ -126,7 +126,7 @@ Proof. exact step_keeps_others. Qed.
 Print Assumptions C11_objects_of_others_kept.
 
 (* the broker does not hang: the work loop terminates from every machine state the handlers can
-   produce; [step_fuel F] is [step] with [F m] instead of [fuel_for (ms m)] as the loop's fuel.
+   produce; [step_fuel F] is [step] with [F m] instead of [fuel_for m] as the loop's fuel.
    For every legal input in a reachable state there is an amount of fuel with which the step is
    Done (in an Inv state), and every larger amount gives the same result *)
 Theorem C11_work_loop_terminates : forall m, MI m -> exists fuel m', settle fuel m = Done m'.
@@ -134,7 +134,7 @@ Proof. exact settle_terminates. Qed.
 Print Assumptions C11_work_loop_terminates.
 
 Theorem C11_step_is_step_fuel : forall s e fresh bserial,
-  step s e fresh bserial = step_fuel (fun m => fuel_for (ms m)) s e fresh bserial.
+  step s e fresh bserial = step_fuel fuel_for s e fresh bserial.
 Proof. exact step_step_fuel. Qed.
 Print Assumptions C11_step_is_step_fuel.
 
@@ -154,4 +154,75 @@ Theorem C11_done_or_fuel : forall s i,
 Proof. exact reach_done_or_fuel. Qed.
 Print Assumptions C11_done_or_fuel.
 
+(* the explicit fuel bound (Broker/FuelProofs.v).  [fuel_for m] is one more than the potential
+     |w_remove_conns| + open channel ends + (3 + |conns|) * (other queued work + load of the state)
+   which every iteration of the work loop lowers; so the loop, started with [fuel_for] of the
+   machine the handler left, finishes: the fuel site 0 of the model is unreachable *)
+Theorem C11_fuel_suffices : forall m, MI m -> exists m', settle (fuel_for m) m = Done m'.
+Proof. exact settle_fuel_for. Qed.
+Print Assumptions C11_fuel_suffices.
 
+Theorem C11_fuel_bound : forall fuel m,
+  MI m ->
+  (length (w_remove_conns (mw m)) + state_ends (ms m)
+   + (3 + size (conns (ms m))) * (work_len (mw m) + state_load (ms m)) <= fuel)%nat ->
+  exists m', settle fuel m = Done m'.
+Proof. exact settle_fuel_enough. Qed.
+Print Assumptions C11_fuel_bound.
+
+(* hence the step is total: Done in an Inv state; no panic site at all, 0 included *)
+Theorem C11_step_total : forall s i,
+  reachable s -> legal s i ->
+  exists s' o, step s (i_ev i) (i_fresh i) (i_bserial i) = Done (s', o) /\ Inv s'.
+Proof. exact reach_step_total. Qed.
+Print Assumptions C11_step_total.
+
+Theorem C11_never_panics : forall s i site,
+  reachable s -> legal s i -> step s (i_ev i) (i_fresh i) (i_bserial i) <> Panic site.
+Proof. exact reach_never_panics. Qed.
+Print Assumptions C11_never_panics.
+
+(* history form: every legal history runs to completion *)
+Theorem C11_run_total : forall h, legal_run init h -> exists s os, run init h = Done (s, os).
+Proof. exact run_total_init. Qed.
+Print Assumptions C11_run_total.
+
+(* frame: what a step leaves untouched.  [bystander_ok g e]: the event [e] is not [g]'s own message,
+   shutdown or task drop, and not ShutdownBroker; in particular e = Message c x with c <> g, whatever
+   the abusive or failing connection [c] sends, and the removal of [c] and of every other dead
+   connection in the same step included.
+   A channel both of whose ends are claimed by healthy connections is exactly the same afterwards
+   (needs neither Inv nor reachability, only that the fresh cookie is not in use) *)
+Theorem C11_channels_of_others_kept : forall s e f b k ch o1 n1 o2 n2 cs1 cs2 s' out,
+  chans s !! k = Some ch -> ch_s ch = Claimed o1 n1 -> ch_r ch = Claimed o2 n2 ->
+  conns s !! o1 = Some cs1 -> cs_alive cs1 = true -> conns s !! o2 = Some cs2 -> cs_alive cs2 = true ->
+  bystander_ok o1 e -> bystander_ok o2 e -> f ∉ cookies_in_use s ->
+  step s e f b = Done (s', out) ->
+  chans s' !! k = Some ch.
+Proof. exact step_keeps_chan. Qed.
+Print Assumptions C11_channels_of_others_kept.
+
+(* a service whose owner (the owner of its object) is healthy is still registered under the same
+   key, for the same owner, with the same cookie, object cookie and info; its subscription sets and
+   pending calls may change, that is the protocol *)
+Theorem C11_services_of_others_kept : forall s e f b k sv g csg s' out,
+  reachable s -> svcs s !! k = Some sv -> owner_of_svc s k = Some g ->
+  conns s !! g = Some csg -> cs_alive csg = true -> bystander_ok g e -> f ∉ cookies_in_use s ->
+  step s e f b = Done (s', out) ->
+  owner_of_svc s' k = Some g /\
+  exists sv', svcs s' !! k = Some sv' /\ s_cookie sv' = s_cookie sv /\ s_obj_cookie sv' = s_obj_cookie sv /\
+              s_info sv' = s_info sv.
+Proof. exact reach_keeps_svc. Qed.
+Print Assumptions C11_services_of_others_kept.
+
+(* a pending call whose caller and callee (the owner of the called service's object) are healthy
+   keeps its record, aborted flag included: a third party can neither drop, answer nor abort it
+   (with C11_pending_calls in the reachable state s': the caller's pending entry is kept too) *)
+Theorem C11_calls_of_others_kept : forall s e f bs b cl g cs1 cs2 s' out,
+  reachable s -> calls s !! b = Some cl -> owner_of_svc s (c_svc cl) = Some g ->
+  conns s !! c_caller cl = Some cs1 -> cs_alive cs1 = true -> conns s !! g = Some cs2 -> cs_alive cs2 = true ->
+  bystander_ok (c_caller cl) e -> bystander_ok g e -> f ∉ cookies_in_use s ->
+  step s e f bs = Done (s', out) ->
+  calls s' !! b = Some cl.
+Proof. exact reach_keeps_call. Qed.
+Print Assumptions C11_calls_of_others_kept.
